@@ -1374,5 +1374,454 @@ theorem handleKey_safe : ∀ (f : Nat), KeyRecSafe (handleKey Cfg.repaired f) :=
   | zero => intro st c ev held _ _; trivial
   | succ f ih => exact handleKeyBody_safe ih f
 
+/-! ### `_handle_mouse` under mutating handlers -/
+
+/-- The references held after a `_handle_mouse` call: the claim it returned is a counted reference. -/
+def heldR (r : Option WinTree.Id) (held : List WinTree.Id) : List WinTree.Id :=
+  match r with
+  | some h => h :: held
+  | none => held
+
+def MouseRecSafe (rec : MouseRec) : Prop :=
+  ∀ (st : St) (c : WinTree.Id) (ev : Ev) (held : List WinTree.Id), Good held st → Alive st.tree c →
+    SafeO (rec st c ev) (fun p => Good (heldR p.2 held) p.1)
+
+theorem mouseSnap_safe {rec : MouseRec} (hrec : MouseRecSafe rec) (win : WinTree.Id) (held : List WinTree.Id) :
+    ∀ (cs : List WinTree.Id) (st : St) (ev : Ev), Good held st → (∀ c ∈ cs, c ∈ held) →
+    SafeO (mouseSnap rec st win cs ev) (fun p => Good (heldR p.2 held) p.1) := by
+  intro cs
+  induction cs with
+  | nil => intro st ev h _; exact h
+  | cons c rest ih =>
+    intro st ev h hsub
+    have hrest : ∀ c' ∈ rest, c' ∈ held := fun c' hc' => hsub c' (List.mem_cons_of_mem _ hc')
+    simp only [mouseSnap]
+    have hca : Alive st.tree c := h.1.held c (hsub c (List.mem_cons_self ..))
+    apply SafeO.lbind (safeR_get hca)
+    intro cw _
+    split
+    · exact ih st ev h hrest
+    · split
+      · exact ih st ev h hrest
+      · apply SafeO.bind (hrec st c (ev.toChild cw) held h hca)
+        intro ⟨st1, r1⟩ h1
+        cases r1 with
+        | some hh => exact h1
+        | none => exact ih st1 ev h1 hrest
+
+theorem mouseChildren_safe {rec : MouseRec} (hrec : MouseRecSafe rec) {fuel : Nat} {st : St} {win : WinTree.Id} {ev : Ev}
+    {held : List WinTree.Id} (h : Good held st) (hwin : win ∈ held) :
+    SafeO (mouseChildren Cfg.repaired rec fuel st win ev) (fun p => Good (heldR p.2 held) p.1) := by
+  unfold mouseChildren
+  apply SafeO.lbind (safeR_get (h.1.held win hwin))
+  intro w ⟨hww, hwf⟩
+  simp only [Cfg.repaired, if_true]
+  have hal : ∀ c ∈ w.children, Alive st.tree c := by
+    intro c hc
+    obtain ⟨cw, hcw, hcf, _⟩ := h.1.tree.child win c w hww hwf hc
+    exact ⟨cw, hcw, hcf⟩
+  apply SafeO.lbind (refAll_safe w.children st held h hal)
+  intro st4 h4
+  apply SafeO.bind (mouseSnap_safe hrec win (w.children ++ held) w.children st4 ev h4
+    (fun c hc => List.mem_append_left _ hc))
+  intro ⟨st5, r5⟩ h5
+  have h5' : Good (w.children ++ heldR r5 held) st5 := by
+    cases r5 with
+    | none => exact h5
+    | some hh => exact ⟨h5.1.perm List.perm_middle.symm, h5.2⟩
+  apply SafeO.lbind (unrefAll_safe w.children st5 (heldR r5 held) h5')
+  intro st6 h6
+  exact h6
+
+theorem mouseOwn_safe {st : St} {win : WinTree.Id} {ev : Ev} {held : List WinTree.Id} (h : Good held st)
+    (hwin : win ∈ held) : SafeO (mouseOwn Cfg.repaired st win ev) (fun p => Good (heldR p.2 held) p.1) := by
+  unfold mouseOwn
+  apply SafeO.lbind (ownVisible_safe h.1.tree (h.1.held win hwin))
+  intro own _
+  split
+  · exact h
+  · apply SafeO.lbind (runHandlers_safe .mouse win ev st held h)
+    intro ⟨st1, d1⟩ h1
+    cases d1 with
+    | false => exact h1
+    | true =>
+      simp only [Bool.not_true, Bool.false_eq_true, if_false, Cfg.repaired, if_true]
+      obtain ⟨st2, e2, h2, hb⟩ := h1.1.ref (h1.1.held win hwin)
+      rw [e2]
+      simp only [lift_ok, out_bind_ok]
+      exact ⟨h2, by rw [hb]; exact h1.2⟩
+
+theorem handleMouseBody_safe {rec : MouseRec} (hrec : MouseRecSafe rec) (fuel : Nat) :
+    MouseRecSafe (handleMouseBody Cfg.repaired rec fuel) := by
+  intro st win ev held h hw
+  unfold handleMouseBody
+  have hvis : SafeR (entryVisible Cfg.repaired st.tree win) (fun _ => True) := by
+    unfold entryVisible
+    simp only [Cfg.repaired, if_true]
+    exact isShown_safe h.1.tree _ win hw
+  apply SafeO.lbind hvis
+  intro vis _
+  split
+  · exact h
+  · obtain ⟨st1, e1, h1, hb⟩ := h.1.ref hw
+    rw [e1]
+    simp only [lift_ok, out_bind_ok]
+    have g1 : Good (win :: held) st1 := ⟨h1, by rw [hb]; exact h.2⟩
+    have hmem : win ∈ win :: held := List.mem_cons_self ..
+    apply SafeO.bind (mouseChildren_safe hrec g1 hmem)
+    intro ⟨st2, r2⟩ g2
+    apply SafeO.bind (Q := fun p => Good (heldR p.2 (win :: held)) p.1)
+    · unfold mouseSelf
+      cases r2 with
+      | some hh => exact g2
+      | none => exact mouseOwn_safe g2 hmem
+    · intro ⟨st3, r3⟩ g3
+      unfold mouseDone
+      have hw3 : Alive st3.tree win := by
+        cases r3 with
+        | none => exact g3.1.held win hmem
+        | some hh => exact g3.1.held win (List.mem_cons_of_mem _ hmem)
+      apply SafeO.lbind (safeR_get hw3)
+      intro w3 _
+      simp only [Cfg.repaired, Bool.not_true, Bool.false_and, Bool.false_eq_true, if_false]
+      have g3' : AInv st3 (win :: heldR r3 held) := by
+        cases r3 with
+        | none => exact g3.1
+        | some hh => exact g3.1.perm (List.Perm.swap _ _ _)
+      apply SafeO.lbind g3'.release
+      intro st4 ⟨h4, hb4⟩
+      exact ⟨h4, by rw [hb4]; exact g3.2⟩
+
+/-- `_handle_mouse` (repaired code) under the covered mutations, for every fuel. -/
+theorem handleMouse_safe : ∀ (f : Nat), MouseRecSafe (handleMouse Cfg.repaired f) := by
+  intro f
+  induction f with
+  | zero => intro st c ev held _ _; trivial
+  | succ f ih => exact handleMouseBody_safe ih f
+
+/-! ### `on_term_mouse`, `on_term_key` and the emission -/
+
+/-- Changing only the root's mouse bookkeeping. -/
+theorem AInv.rootUpdate {st : St} {held : List WinTree.Id} (h : AInv st held) {t' : Tree} (hw : t'.wins = st.tree.wins)
+    (hc : t'.root.changes = st.tree.root.changes) (hd : DragOK t') : AInv { st with tree := t' } held :=
+  h.step ⟨h.tree.shape ⟨hc, fun i => by rw [hw]⟩, hd, Evolve.of_wins hw⟩
+
+theorem alive_of_wins {t t' : Tree} (hw : t'.wins = t.wins) {i : WinTree.Id} (h : Alive t i) : Alive t' i := by
+  obtain ⟨w, hww, hf⟩ := h
+  exact ⟨w, by rw [hw]; exact hww, hf⟩
+
+theorem up_safe {t : Tree} (hi : TInv t) : ∀ (f : Nat) (p : Option WinTree.Id) (g : Rect),
+    (∀ q, p = some q → Alive t q) → SafeR (absGeometry.up t f p g) (fun _ => True) := by
+  intro f
+  induction f with
+  | zero => intro p g _; exact Or.inl rfl
+  | succ f ih =>
+    intro p g hp
+    cases p with
+    | none => simp only [absGeometry.up]; trivial
+    | some q =>
+      simp only [absGeometry.up]
+      obtain ⟨qw, hg, hqw, hqf⟩ := (hp q rfl).get
+      rw [hg]
+      simp only [res_bind_ok]
+      apply ih
+      intro q' hq'
+      obtain ⟨pw, hpw, hpf, _⟩ := hi.parent q q' qw hqw hqf hq'
+      exact ⟨pw, hpw, hpf⟩
+
+theorem absGeometry_safe {t : Tree} (hi : TInv t) (f : Nat) {x : WinTree.Id} (hx : Alive t x) :
+    SafeR (absGeometry t f x) (fun _ => True) := by
+  unfold absGeometry
+  obtain ⟨w, hg, hw, hf⟩ := hx.get
+  simp only [hg, res_bind_ok]
+  apply up_safe hi
+  intro q hq
+  obtain ⟨pw, hpw, hpf, _⟩ := hi.parent x q w hw hf hq
+  exact ⟨pw, hpw, hpf⟩
+
+theorem dropResult_safe {st : St} {held : List WinTree.Id} {r : Option WinTree.Id} (h : Good (heldR r held) st) :
+    SafeR (dropResult Cfg.repaired st r) (Good held) := by
+  unfold dropResult
+  cases r with
+  | none => exact h
+  | some x =>
+    simp only [Cfg.repaired, if_true]
+    refine (AInv.release (c := x) h.1).mono fun st' ⟨h', hb⟩ => ⟨h', by rw [hb]; exact h.2⟩
+
+theorem dragSourceSet_safe {st : St} {held : List WinTree.Id} {src : Option WinTree.Id} (h : Good (heldR src held) st) :
+    SafeR (dragSourceSet Cfg.repaired st src) (Good held) := by
+  unfold dragSourceSet
+  simp only [Cfg.repaired, Bool.not_true, Bool.false_eq_true, if_false]
+  cases src with
+  | none =>
+    exact ⟨h.1.rootUpdate rfl rfl (fun d hd => by simp at hd), h.2⟩
+  | some s =>
+    simp only
+    have hs : Alive st.tree s := h.1.held s (List.mem_cons_self ..)
+    have hd : DragOK ({ st.tree with root := { st.tree.root with
+        dragSource := if isWithin st.tree (treeFuel st.tree) 0 s = true then some s else none } } : Tree) := by
+      intro d hdd
+      simp only at hdd
+      split at hdd
+      · cases hdd; exact hs
+      · cases hdd
+    have h1 : AInv ({ st with tree := { st.tree with root := { st.tree.root with
+        dragSource := if isWithin st.tree (treeFuel st.tree) 0 s = true then some s else none } } } : St) (s :: held) :=
+      h.1.rootUpdate rfl rfl hd
+    exact h1.release.mono fun st' ⟨h', hb⟩ => ⟨h', by rw [hb]; exact h.2⟩
+
+theorem isAlive_of_alive {t : Tree} {i : WinTree.Id} (h : Alive t i) : isAlive t i = true := by
+  obtain ⟨w, hw, hf⟩ := h
+  unfold isAlive; rw [hw]; simp [hf]
+
+theorem toDragSource_safe {fuel : Nat} {st : St} {src : WinTree.Id} {type : Int} {ev : Ev} {held : List WinTree.Id}
+    (h : Good held st) (hsrc : Alive st.tree src) : SafeO (toDragSource Cfg.repaired fuel st src type ev) (Good held) := by
+  unfold toDragSource
+  rw [isAlive_of_alive hsrc]
+  simp only [Bool.not_true, Bool.false_eq_true, if_false, out_pure, out_bind_ok]
+  apply SafeO.lbind (absGeometry_safe h.1.tree _ hsrc)
+  intro geom _
+  apply SafeO.bind (handleMouse_safe fuel st src _ held h hsrc)
+  intro ⟨st1, r⟩ h1
+  exact SafeO.lift (dropResult_safe h1)
+
+/-- Setting root bookkeeping fields that the invariant does not look at. -/
+theorem Good.rootFields {st : St} {held : List WinTree.Id} (h : Good held st) (r' : Root)
+    (hc : r'.changes = st.tree.root.changes) (hd : r'.dragSource = st.tree.root.dragSource) :
+    Good held { st with tree := { st.tree with root := r' } } :=
+  ⟨h.1.rootUpdate rfl hc (fun d hdd => alive_of_wins rfl (h.1.drag d (by rw [← hd]; exact hdd))), h.2⟩
+
+theorem dragStop_safe {fuel : Nat} {st : St} {ev : Ev} {held : List WinTree.Id} (h : Good held st) :
+    SafeO (dragStop Cfg.repaired fuel st ev) (Good held) := by
+  unfold dragStop
+  cases hs : st.tree.root.dragSource with
+  | none => exact h
+  | some src => exact toDragSource_safe h (h.1.drag src hs)
+
+theorem dragOutside_safe {fuel : Nat} {st : St} {ev : Ev} {handled : Option WinTree.Id} {held : List WinTree.Id}
+    (h : Good held st) : SafeO (dragOutside Cfg.repaired fuel st ev handled) (Good held) := by
+  unfold dragOutside
+  cases hs : st.tree.root.dragSource with
+  | none => exact h
+  | some src =>
+    simp only
+    split
+    · exact toDragSource_safe h (h.1.drag src hs)
+    · exact h
+
+theorem dragPrelude_safe {fuel : Nat} {st : St} {ev : Ev} (h : Good [0] st) :
+    SafeO (dragPrelude Cfg.repaired fuel st ev) (Good [0]) := by
+  have h0 : Alive st.tree 0 := h.1.held 0 (List.mem_cons_self ..)
+  unfold dragPrelude
+  dsimp only
+  split
+  · exact h.rootFields _ rfl rfl
+  · split
+    · apply SafeO.bind (handleMouse_safe fuel st 0 _ [0] h h0)
+      intro ⟨st1, src⟩ h1
+      apply SafeO.lbind (dragSourceSet_safe h1)
+      intro st2 h2
+      exact h2.rootFields _ rfl rfl
+    · split
+      · apply SafeO.bind (handleMouse_safe fuel st 0 _ [0] h h0)
+        intro ⟨st1, dropped⟩ h1
+        apply SafeO.lbind (dropResult_safe h1)
+        intro st2 h2
+        apply SafeO.bind (dragStop_safe h2)
+        intro st3 h3
+        exact h3.rootFields _ rfl rfl
+      · exact h
+
+theorem onTermMouse_safe (fuel : Nat) {st : St} (ev : Ev) (h : Good [] st) :
+    SafeO (onTermMouse Cfg.repaired fuel st ev) (fun p => Good [] p.1) := by
+  unfold onTermMouse
+  have h0 : Alive st.tree 0 := by
+    obtain ⟨w0, hw0, hf0, _⟩ := h.1.tree.root
+    exact ⟨w0, hw0, hf0⟩
+  obtain ⟨st0, e0, g0, hb0⟩ := h.1.ref h0
+  rw [e0]
+  simp only [lift_ok, out_bind_ok]
+  have G0 : Good [0] st0 := ⟨g0, by rw [hb0]; exact h.2⟩
+  apply SafeO.bind (dragPrelude_safe G0)
+  intro st1 G1
+  apply SafeO.bind (handleMouse_safe fuel st1 0 ev [0] G1 (G1.1.held 0 (List.mem_cons_self ..)))
+  intro ⟨st2, handled⟩ G2
+  apply SafeO.bind (dragOutside_safe (handled := handled) G2)
+  intro st3 G3
+  apply SafeO.lbind (dropResult_safe G3)
+  intro st4 G4
+  apply SafeO.lbind G4.1.release
+  intro st5 ⟨h5, hb5⟩
+  exact ⟨h5, by rw [hb5]; exact G4.2⟩
+
+theorem onTermKey_safe (fuel : Nat) {st : St} (ev : Ev) (h : Good [] st) :
+    SafeO (onTermKey Cfg.repaired fuel st ev) (fun p => Good [] p.1) := by
+  unfold onTermKey
+  obtain ⟨w0, hw0, hf0, _⟩ := h.1.tree.root
+  exact handleKey_safe fuel st 0 ev [] h ⟨w0, hw0, hf0⟩
+
+theorem Good.say {held : List WinTree.Id} {st : St} (h : Good held st) (i : LogItem) : Good held (st.say i) :=
+  ⟨⟨h.1.tree, h.1.drag, h.1.size, h.1.rc, h.1.leaf, h.1.held, h.1.root⟩, h.2⟩
+
+/-- `tickit_term_emit_key` / `tickit_term_emit_mouse` on the repaired code: from an application state that satisfies
+    the invariant (no dispatcher reference outstanding), whatever the covered handlers do, the outcome is never an
+    undefined behaviour of the C code, and the state that results satisfies the invariant again. -/
+theorem emit_safe {st : St} (h : Good [] st) (ev : Ev) :
+    SafeO (emitKey Cfg.repaired st ev) (Good []) ∧ SafeO (emitMouse Cfg.repaired st ev) (Good []) := by
+  constructor
+  · unfold emitKey
+    apply SafeO.bind (onTermKey_safe _ ev h)
+    intro ⟨st', handled⟩ h'
+    cases handled with
+    | true => exact h'
+    | false => exact h'.say _
+  · unfold emitMouse
+    apply SafeO.bind (onTermMouse_safe _ ev h)
+    intro ⟨st', handled⟩ h'
+    cases handled with
+    | true => exact h'
+    | false => exact h'.say _
+
+/-! ### decidable check of the invariant on a concrete state (for the non-vacuity examples) -/
+
+def winCheck (t : Tree) (i : WinTree.Id) (w : Win) : Bool :=
+  w.children.all (fun c => match t.wins[c]? with
+    | some cw => !cw.freed && cw.parent == some i
+    | none => false) &&
+  (match w.parent with
+    | none => true
+    | some p => match t.wins[p]? with
+      | some pw => !pw.freed && pw.children.contains i
+      | none => false) &&
+  (match w.focusedChild with
+    | none => true
+    | some f => w.children.contains f) &&
+  decide w.children.Nodup && w.parent != some i && (!w.isClosed || w.parent.isNone)
+
+def tinvCheck (t : Tree) : Bool :=
+  (match t.wins[0]? with
+    | some w0 => !w0.freed && w0.parent.isNone
+    | none => false) &&
+  t.root.changes.isEmpty &&
+  (List.range t.wins.size).all fun i =>
+    match t.wins[i]? with
+    | none => true
+    | some w => w.freed || winCheck t i w
+
+theorem tinvCheck_sound {t : Tree} (h : tinvCheck t = true) : TInv t := by
+  unfold tinvCheck at h
+  simp only [Bool.and_eq_true, List.all_eq_true, List.mem_range, List.isEmpty_iff] at h
+  obtain ⟨⟨h0, hq⟩, hall⟩ := h
+  have hw : ∀ (i : WinTree.Id) (w : Win), t.wins[i]? = some w → w.freed = false → winCheck t i w = true := by
+    intro i w hw hf
+    have := hall i (Array.getElem?_eq_some_iff.1 hw).1
+    simpa [hw, hf] using this
+  constructor
+  · cases hw0 : t.wins[0]? with
+    | none => simp [hw0] at h0
+    | some w0 =>
+      simp only [hw0, Bool.and_eq_true, Bool.not_eq_true', Option.isNone_iff_eq_none] at h0
+      exact ⟨w0, rfl, h0.1, h0.2⟩
+  · intro i c w hwi hf hc
+    have := hw i w hwi hf
+    simp only [winCheck, Bool.and_eq_true, List.all_eq_true] at this
+    have hcc := this.1.1.1.1.1 c hc
+    cases hcw : t.wins[c]? with
+    | none => simp [hcw] at hcc
+    | some cw =>
+      simp only [hcw, Bool.and_eq_true, Bool.not_eq_true', beq_iff_eq] at hcc
+      exact ⟨cw, rfl, hcc.1, hcc.2⟩
+  · intro c p cw hcw hf hp
+    have := hw c cw hcw hf
+    simp only [winCheck, Bool.and_eq_true] at this
+    have hpp := this.1.1.1.1.2
+    simp only [hp] at hpp
+    cases hpw : t.wins[p]? with
+    | none => simp [hpw] at hpp
+    | some pw =>
+      simp only [hpw, Bool.and_eq_true, Bool.not_eq_true', List.contains_iff_mem] at hpp
+      exact ⟨pw, rfl, hpp.1, hpp.2⟩
+  · intro i f w hwi hf hfc
+    have := hw i w hwi hf
+    simp only [winCheck, Bool.and_eq_true] at this
+    have hff := this.1.1.1.2
+    simp only [hfc, List.contains_iff_mem] at hff
+    exact hff
+  · intro i w hwi hf
+    have := hw i w hwi hf
+    simp only [winCheck, Bool.and_eq_true, decide_eq_true_eq] at this
+    exact this.1.1.2
+  · intro i w hwi hf
+    have := hw i w hwi hf
+    simp only [winCheck, Bool.and_eq_true, bne_iff_ne, ne_eq] at this
+    exact this.1.2
+  · intro i w hwi hf hcl
+    have := hw i w hwi hf
+    simp only [winCheck, Bool.and_eq_true, Bool.or_eq_true, Bool.not_eq_true', Option.isNone_iff_eq_none] at this
+    rcases this.2 with h1 | h1
+    · rw [hcl] at h1; cases h1
+    · exact h1
+  · exact hq
+
+def ainvCheck (st : St) : Bool :=
+  tinvCheck st.tree &&
+  (match st.tree.root.dragSource with
+    | none => true
+    | some d => isAlive st.tree d) &&
+  st.owned.size == st.tree.wins.size &&
+  decide (1 ≤ st.owned.getD 0 0) &&
+  (List.range st.tree.wins.size).all fun i =>
+    match st.tree.wins[i]? with
+    | none => true
+    | some w => w.freed || (decide (w.refcount = (st.owned.getD i 0 : Int)) &&
+        (decide (st.owned.getD i 0 ≠ 0) || w.children.isEmpty))
+
+theorem ainvCheck_sound {st : St} (h : ainvCheck st = true) : AInv st [] := by
+  unfold ainvCheck at h
+  simp only [Bool.and_eq_true, List.all_eq_true, List.mem_range, beq_iff_eq, decide_eq_true_eq] at h
+  obtain ⟨⟨⟨⟨ht, hd⟩, hs⟩, hr⟩, hall⟩ := h
+  have hw : ∀ (i : WinTree.Id) (w : Win), st.tree.wins[i]? = some w → w.freed = false →
+      w.refcount = (st.owned.getD i 0 : Int) ∧ (st.owned.getD i 0 ≠ 0 ∨ w.children = []) := by
+    intro i w hw hf
+    have := hall i (Array.getElem?_eq_some_iff.1 hw).1
+    simp only [hw, hf, Bool.false_or, Bool.and_eq_true, decide_eq_true_eq, Bool.or_eq_true, List.isEmpty_iff] at this
+    exact this
+  refine ⟨tinvCheck_sound ht, ?_, hs, ?_, ?_, fun x hx => (by cases hx), hr⟩
+  · intro d hdd
+    rw [hdd] at hd
+    simp only at hd
+    unfold isAlive at hd
+    cases hwd : st.tree.wins[d]? with
+    | none => simp [hwd] at hd
+    | some w => simp only [hwd] at hd; exact ⟨w, hwd, by simpa using hd⟩
+  · intro i w hwi hf
+    have := (hw i w hwi hf).1
+    simp only [List.count_nil]
+    omega
+  · intro i w hwi hf ho
+    rcases (hw i w hwi hf).2 with h1 | h1
+    · exact absurd ho h1
+    · exact h1
+
+def tableCheck (binds : Array Binding) : Bool :=
+  binds.toList.all fun b => b.entries.all fun e => e.actions.all fun a =>
+    a.act == .close || a.act == .unref || a.act == .keep || a.act == .hide || a.act == .unhide ||
+      a.act == .stealOn || a.act == .stealOff
+
+theorem tableCheck_sound {binds : Array Binding} (h : tableCheck binds = true) : TableOK binds := by
+  intro i b hb e he a ha
+  unfold tableCheck at h
+  rw [List.all_eq_true] at h
+  have hm : b ∈ binds.toList := by
+    rw [Array.mem_toList_iff]; exact Array.mem_of_getElem? hb
+  have := h b hm
+  rw [List.all_eq_true] at this
+  have := this e he
+  rw [List.all_eq_true] at this
+  have := this a ha
+  simp only [Bool.or_eq_true, beq_iff_eq] at this
+  unfold ActOK
+  rcases this with ((((((h1 | h1) | h1) | h1) | h1) | h1) | h1) <;> simp [h1]
+
 end WinInput
 end Tickit
